@@ -682,3 +682,12 @@ func (s *Sched) pickAlt(n int, what string) int {
 
 // Choose lets harness code (fault injection etc.) branch over n alternatives.
 func Choose(n int, what string) int { return Cur.pickAlt(n, what) }
+
+// Recover is wrapped around every recover() of the code under test: the panic with which the
+// controlled runtime unwinds a killed thread is not the program's to catch.
+func Recover(r interface{}) interface{} {
+	if _, ok := r.(killSentinel); ok {
+		panic(r)
+	}
+	return r
+}
